@@ -19,7 +19,7 @@ CLAIMED = {
         note=TRUST + "rand/names replaced by contract shims (every draw symbolic); size operands of ONES/ZEROS/RAND/SINE/FROMINT take the concrete values -1..3 here (magnitude is C15's subject); index operand of YANK/SHOVE/YANKDUP on CODE/EXEC/NAME/vector stacks takes a concrete value set.",
         ref="DESIGN.md section 4, C01"),
     "C02": dict(
-        text="Model checking (bounded): the accounting code of the real PushInterpreter::run is checked against EVERY behaviour of a step: step is replaced by a nondeterministic stand-in (arbitrary growth 0..4, arbitrary completion flag), the clock by arbitrary non-decreasing instants; eval_push_limit in -1..2 (..4 thorough) one harness each, growth_cap 0..2 and eval_time_limit symbolic. Asserted: outcome vs. an independent accounting of the logged steps (NoErrors only after a completed step, StepLimitExceeded exactly after limit+1 steps, GrowthCapExceeded exactly when a step grew the state by more than the cap, TimeLimitExceeded only after the observed time passed the limit), never more than limit+1 steps, no step after the time limit, state changed only through steps. Plus the real step on an empty EXEC stack (completion, nothing changes) and run on an empty program.",
+        text="Model checking (bounded): the accounting code of the real PushInterpreter::run is checked against EVERY behaviour of a step: step is replaced by a nondeterministic stand-in (arbitrary growth 0..4, arbitrary completion flag), the clock by arbitrary non-decreasing instants; eval_push_limit in -1..1 (..3 thorough) one harness each, growth_cap 0..2 and eval_time_limit symbolic. Asserted: outcome vs. an independent accounting of the logged steps (NoErrors only after a completed step, StepLimitExceeded exactly after limit+1 steps, GrowthCapExceeded exactly when a step grew the state by more than the cap, TimeLimitExceeded only after the observed time passed the limit), never more than limit+1 steps, no step after the time limit, state changed only through steps. Plus the real step on an empty EXEC stack (completion, nothing changes) and run on an empty program.",
         note=TRUST + "Stubs in this check: PushInterpreter::step (stand-in), Instant::now / Instant::elapsed (symbolic clock), InstructionSet::cache (empty cache). Real programs cannot be stepped under CBMC (Item clone/drop): equivalence of run with k real steps on real programs and the EXEC->CODE copy of a non-empty program are NOT covered.",
         ref="DESIGN.md section 4, C02"),
     "C04": dict(
@@ -63,7 +63,7 @@ CLAIMED = {
         note=TRUST + "PushBuffer::to_string (core::fmt) is NOT covered - by reading, it starts at slot `start` and prints a stale slot; that clause of the property is outside the claim.",
         ref="DESIGN.md section 4, C17"),
     "C20": dict(
-        text="Model checking (bounded): decompose_index is a bijection for edge 1..4 x dimensions 1..3 and every index; find_neighbors for every ntotal 1..9 (..16), ndim 1..3, every centre and ANY f32 radius equals the brute-force set computed from exact integer squared distances in the smallest enclosing hypercube (which implies: contains the centre, ascending, no repeats, valid indices, symmetric, monotone in the radius); invalid centre / zero sizes give no neighbourhood; LIST.NEIGHBOR*IDS through the registry with operand tuples in [-4,4] clamps as documented.",
+        text="Model checking (bounded): decompose_index is a bijection for edge 1..4 x dimensions 1..3 and every index; find_neighbors for every ntotal 1..4 (..6 thorough), ndim 1..3, every centre and ANY f32 radius equals the brute-force set computed from exact integer squared distances in the smallest enclosing hypercube (which implies: contains the centre, ascending, no repeats, valid indices, symmetric, monotone in the radius); invalid centre / zero sizes give no neighbourhood; LIST.NEIGHBOR*IDS through the registry (size 0..4 and dimension operands concrete incl. negative / oversized, centre index any i32, radius any f32 incl. NaN) clamps as documented.",
         note=TRUST + "f32::powf is replaced by a lookup table generated on every run from the REAL libm for exactly the argument set of this domain (so the edge length is the one the shipped binary computes); sqrt is CBMC's. LIST.NEIGHBOR*{B,I,F}VALS read records through Item::find (clone): not covered.",
         ref="DESIGN.md section 4, C20"),
 }
